@@ -519,12 +519,30 @@ static string do_sweep(const vector<string> &a) {
   return "n=" + vh::str(rs.size()) + ";chk=" + (bad.empty() ? "ok" : bad);
 }
 
+// ================= AckTimerResponder against its state-machine model =================
+static string do_ackt(const vector<string> &a) {
+  UID uid = uid_p(a[1]);
+  AckTimerResponder dev(uid);
+  vector<string> steps = vh::split(a[6], '/');
+  string t;
+  for (size_t i = 0; i < steps.size(); i++) {
+    size_t c = steps[i].find(':');
+    g_now_ns += 1000000LL * static_cast<long long>(vh::num(steps[i].substr(0, c)));
+    Capture cap;
+    send(&dev, req_p(steps[i].substr(c + 1)), &cap);
+    if (i) t += "/";
+    t += cap.Joined();
+  }
+  return "t=" + t + ";qc=" + vh::str(static_cast<int>(dev.QueuedMessageCount()));
+}
+
 static string handle(const string &p) {
   vector<string> a = vh::split(p);
   if (a[0] == "disp" && a.size() == 6) return do_disp(a);
   if (a[0] == "fan" && a.size() == 4) return do_fan(a);
   if (a[0] == "help" && a.size() == 5) return do_help(a);
   if (a[0] == "sweep" && a.size() == 4) return do_sweep(a);
+  if (a[0] == "ackt" && a.size() == 7) return do_ackt(a);
   return "bad-op";
 }
 
